@@ -196,6 +196,8 @@ type World struct {
 	// C14
 	podChains   map[int]map[string]bool // pod idx -> KUBE-HP chains that appeared while its ADD requests ran
 	podBase     map[int]map[string]int  // pod idx -> NAT lines before its first ADD
+	podOpens    map[int][]openEvent     // pod idx -> socket opens by its ADD requests
+	portPod     map[string]int          // proto/port -> pod idx that was last given the port
 	baseNAT     []string // NAT lines after the first successful start
 	preStart    []string
 	syncOK      int
@@ -227,7 +229,7 @@ func (w *World) armed(p string) bool { return w.prop == p }
 func NewWorld(s *core.Sim, prop string, cfg *Config, solo *SoloSpec) *World {
 	w := &World{S: s, C: s.C, prop: prop, prof: profileFor(prop), solo: solo, byID: map[string]*Container{}, cur: map[int]*Container{},
 		made: map[int]int{}, reqs: map[string]*Request{}, attempts: map[string]int{}, leftovers: map[string]*Leftover{},
-		gcBusy: map[string]*core.Task{}, gcState: map[*core.Task]*gcTaskState{}, halfWritten: map[string]bool{}, rawBusy: map[string]*core.Task{}, podChains: map[int]map[string]bool{}, podBase: map[int]map[string]int{}}
+		gcBusy: map[string]*core.Task{}, gcState: map[*core.Task]*gcTaskState{}, halfWritten: map[string]bool{}, rawBusy: map[string]*core.Task{}, podChains: map[int]map[string]bool{}, podBase: map[int]map[string]int{}, podOpens: map[int][]openEvent{}, portPod: map[string]int{}}
 	c := w.C
 	if cfg == nil {
 		cfg = genConfig(c, prop)
@@ -246,6 +248,7 @@ func NewWorld(s *core.Sim, prop string, cfg *Config, solo *SoloSpec) *World {
 	w.FS.OnMutate = w.onFSMutate
 	w.Net = simnet.NewTable(s, cfg.EphLo, cfg.EphHi)
 	w.Net.OnClose = w.onSockClose
+	w.Net.OnOpen = w.onSockOpen
 	w.Kern = NewKernel()
 	if cfg.PriorNAT != "" {
 		w.Kern.LoadText(cfg.PriorNAT)
